@@ -704,5 +704,14 @@ func dynName(v AV) string {
 	if i := strings.LastIndex(s, "."); i >= 0 {
 		s = s[i+1:]
 	}
+	return canonNodeName(s)
+}
+
+// canonNodeName: node type names are compared modulo the one irregularity of the naming scheme: the let node is called
+// DefineVariables in the tables of the specification side, with or without the Node suffix in the source.
+func canonNodeName(s string) string {
+	if s == "DefineVariablesNode" {
+		return "DefineVariables"
+	}
 	return s
 }
